@@ -98,7 +98,9 @@ def replace(obj: DataclassT, changes_dict: dict[str, Any] | None = None, **chang
 
         if is_dataclass_instance(field_value) and isinstance(changes[field.name], dict):
             field_changes = changes.pop(field.name)
-            new_value = replace(field_value, **field_changes)
+            # NOTE: pass the nested changes as a dict (not as **kwargs), so that nested fields may be
+            # called `obj` or `changes_dict` like the parameters of this function.
+            new_value = replace(field_value, field_changes)
         else:
             new_value = changes.pop(field.name)
         replace_kwargs[field.name] = new_value
